@@ -4,6 +4,12 @@ NOTES = ("All checks: bin/check <ID> --tier quick|thorough. Exit 0 held / 1 VIOL
          "Specification in spec/, harness in harness/, known findings in known_findings.jsonl; see DESIGN.md.")
 NOT_APPLICABLE = {}
 CHECKS = {
+    "C03": {
+        "level": "model_checking",
+        "technique": "TLA+ reference semantics (Eval.tla: scoping, closures, control flow, argument binding, operators); TLC enumerates/simulates programs (MC_Eval) and computes expected declarations and logger deliveries, grass is run on each; scope-operation traces from hooks validated by TLC (Trace_Scopes) on generated programs and the golden corpus",
+        "text": "Bounded-exhaustive and simulated program spaces decided by an executable specification: every generated program's emitted declarations and @debug deliveries (message, line) must equal what Eval.tla computes (or fail when it says error); every variable lookup/assignment the implementation performs, on generated programs and on the repository's corpus, must pick the frame the abstract scoping rule picks.",
+        "note": "Values limited to ints/strings/bools/null/flat lists/maps; recursion and long-running @while excluded (expectation 'unknown' is not judged); trace events carry ground-truth frame positions computed by the guarded hook.",
+    },
     "C17": {
         "level": "model_checking",
         "technique": "TLA+ Media spec: TLC checks merge soundness over all in-scope pairs/lists; TLC-generated nestings compiled by grass; emitted @media chains judged by TLC trace machine Trace_Media under all 24 environments",
